@@ -1226,7 +1226,16 @@ theorem below_false {best : Option Nat} {x b : Nat} (hb : below best b = true)
   | none => simp [below] at h
   | some k => simp [below] at h hb; omega
 
-theorem outer_spec {ss : List Seat} (hv : Valid ss) : ∀ (fuel : Nat) (st : State), LoopInv ss st →
+/-- what the proofs need of the property's hypotheses: commitments are non-negative and some
+    contesting seat holds the largest commitment of the table -/
+def Covered (ss : List Seat) : Prop :=
+  (∀ s ∈ ss, 0 ≤ s.risked) ∧ ∃ m ∈ ss, live m = true ∧ ∀ s ∈ ss, s.risked ≤ m.risked
+
+theorem Covered.of_valid {ss : List Seat} (h : Valid ss) : Covered ss := by
+  obtain ⟨h1, m, hm, hml, hmax, _⟩ := h
+  exact ⟨h1, m, hm, hml, hmax⟩
+
+theorem outer_spec {ss : List Seat} (hv : Covered ss) : ∀ (fuel : Nat) (st : State), LoopInv ss st →
     (∀ s ∈ ss, live s = true → below st.best s.strength = false → s.risked ≤ st.distributing) →
     (ss.filter (fun s => live s && below st.best s.strength)).length < fuel →
     LoopInv ss (outer fuel st) ∧ ∀ s ∈ ss, s.risked ≤ (outer fuel st).distributing := by
@@ -1241,7 +1250,7 @@ theorem outer_spec {ss : List Seat} (hv : Valid ss) : ∀ (fuel : Nat) (st : Sta
       have hout : outer (fuel + 1) st = st := by simp only [outer, hs]
       rw [hout]
       refine ⟨hI, ?_⟩
-      obtain ⟨_, m, hm, hml, hmax, _⟩ := hv
+      obtain ⟨_, m, hm, hml, hmax⟩ := hv
       have hmD : m.risked ≤ st.distributing := by
         apply hJ m hm hml
         cases hbm : below st.best m.strength with
@@ -1378,14 +1387,17 @@ theorem loopInv_init {l : List Entry} (hz : ∀ p ∈ l, p.reward = 0)
       rw [this, potSum_self, h0]; exact Int.le_refl _
 
 /-- what holds after `settle` on a valid ledger -/
-theorem run_spec {l : List Entry} (hl : ValidLedger l) :
+theorem run_spec_covered {l : List Entry} (hz : ∀ p ∈ l, p.reward = 0) (hv : Covered (seats l)) :
     LoopInv (seats l) (run l) ∧ ∀ s ∈ seats l, s.risked ≤ (run l).distributing := by
-  obtain ⟨hz, hv⟩ := hl
   apply outer_spec hv (l.length + 1) (init l) (loopInv_init hz hv.1)
   · intro s _ _ hb; simp [init, below] at hb
   · have := List.length_filter_le (fun s : Seat => live s && below (init l).best s.strength) (seats l)
     have e : (seats l).length = l.length := by simp [seats]
     omega
+
+theorem run_spec {l : List Entry} (hl : ValidLedger l) :
+    LoopInv (seats l) (run l) ∧ ∀ s ∈ seats l, s.risked ≤ (run l).distributing :=
+  run_spec_covered hl.1 (Covered.of_valid hl.2)
 
 /-! ### the `while let` loops without fuel
 
